@@ -9,22 +9,37 @@ Model: `Mkts/Model/Trigger.lean` (`AppendRecord`, `DispatchRecords`, `run`, `Mat
   every history of flushed transaction groups, the multiset of `(trigger, key path, record)` handed
   to triggers equals `{(m, r) | r ∈ tg, match m (key r)}`; `C32_exactly_once`, `C32_only_matching`,
   `C32_any_map_order` (Go's random map iteration orders), `C32_record_index`, `C32_record_payload`.
-* `match_spec`: the backtracking matcher = regular-language semantics of the translated pattern,
-  searched unanchored; `match_comp_*`: what that means component-wise.
+* `code_anchored`: `Matcher.Match` of the current source anchors the pattern (regenerated skeleton);
+  `match_spec`: `Match` = "some PREFIX of the key path is in the regular language of the translated
+  pattern"; `match_comp_*`: what that means component-wise.
 * Concurrent flushers: `C32_concurrent_full` is false - `C32_cex_lost`, `C32_cex_duplicate` give
   schedules of two flushers at the granularity of dispatcher-map operations; `C32_partial` is the
   statement for schedules of ONE flusher.
-* `C32_anchored_full` (a trigger sees only buckets its pattern names from the start of the path) is
-  false: `C32_cex_unanchored`; `C32_anchored_partial`.
+* `C32_anchored` (FULL since the repair of C32-F1): for `{*, literal}` patterns `Match` is exactly the
+  documented component-wise reading from the start of the path (`compAnchored`), so a trigger sees only
+  buckets its pattern names; `C32_only_named`.  `before_repair_unanchored` records what the unanchored
+  search did.
 -/
 namespace Mkts.Props.C32
 open Mkts.Trigger Mkts.Bytes List
 
 /-! ## the glob translation -/
 
-/-- `Match` = "some substring of the key path is in the language of the translated pattern" -/
+/-- `Matcher.Match` of the current source is the repaired one: `"^" + strings.Replace(...)`
+    (skeleton regenerated from the repository; a revert makes this `decide` fail and the model follow) -/
+theorem code_anchored : anchoredInCode = true := by decide
+
+theorem match_eq (on key : Str) : «match» on key = matchHere (translate on) key := by
+  simp [«match», matchWith, code_anchored]
+
+/-- `Match` = "some prefix of the key path is in the language of the translated pattern" -/
 theorem match_spec (on key : Str) :
-    «match» on key = true ↔ Matches (translate on) key :=
+    «match» on key = true ↔ PrefixMatches (translate on) key := by
+  rw [match_eq]; exact matchHere_iff _ _
+
+/-- the unanchored form (the source before the repair): "some substring is in the language" -/
+theorem matchWith_unanchored_spec (on key : Str) :
+    matchWith false on key = true ↔ Matches (translate on) key :=
   matchAny_iff _ _
 
 /-- a pattern without `*` matches exactly the key paths containing it -/
@@ -292,27 +307,16 @@ theorem C32_partial (ms : List Str) (cs : List Cmd) :
   refine (this.trans (expectedOf_perm ms (flat_groupByKey cs))).trans ?_
   simp [expected, expectedOf, matching]
 
-/-! ## anchoring (finding C32-F1) -/
+/-! ## anchoring (finding C32-F1, repaired: `Match` anchors the pattern at the start of the path) -/
 
-/-- the documented reading of `On` ("the prefix of file path", `*` a wildcard): a trigger is called
-    only for key paths its pattern matches component by component from the START of the path -/
-def C32_anchored_full : Prop :=
-  ∀ (pcs : List Comp) (kcs : List (List Char)),
-    matchAny (patToks pcs) (joinSlash kcs) = true → compAnchored pcs kcs = true
-
-/-- trigger `A/1Min/OHLCV` is also called for bucket `AA/1Min/OHLCV` -/
-theorem C32_cex_unanchored :
+/-- BEFORE THE REPAIR (`matchWith false`, the unanchored search): trigger `A/1Min/OHLCV` was also called
+    for bucket `AA/1Min/OHLCV`, which the component-wise reading from the start of the path excludes -/
+theorem before_repair_unanchored :
     matchAny (patToks [.word ['A'], .word ['1','M','i','n'], .word ['O','H','L','C','V']])
       (joinSlash [['A','A'], ['1','M','i','n'], ['O','H','L','C','V'], ['2','0','2','0','.','b','i','n']]) = true ∧
     compAnchored [.word ['A'], .word ['1','M','i','n'], .word ['O','H','L','C','V']]
       [['A','A'], ['1','M','i','n'], ['O','H','L','C','V'], ['2','0','2','0','.','b','i','n']] = false := by
   decide
-
-theorem C32_anchored_not_full : ¬ C32_anchored_full := by
-  intro h
-  have := h _ _ C32_cex_unanchored.1
-  rw [C32_cex_unanchored.2] at this
-  exact absurd this (by decide)
 
 theorem word_denote (w : List Char) : Denote (w.map Tok.lit) w := by
   induction w with
@@ -365,13 +369,132 @@ theorem anchored_here : ∀ (pcs : List Comp) (kcs : List (List Char)), pcs ≠ 
         simp [hj]
       · exact (match_comp_split c (c2 :: cs) (by simp) _).mpr ⟨k, m2, rfl, hd1, hd2⟩
 
-/-- the converse direction holds for every pattern and every key path (components without `/`): what
-    the documentation promises to match IS matched, so the defect is only ever an EXTRA call -/
-theorem C32_anchored_partial (pcs : List Comp) (kcs : List (List Char)) (hp : pcs ≠ [])
-    (hk : ∀ k ∈ kcs, ∀ x ∈ k, x ≠ '/')
-    (h : compAnchored pcs kcs = true) : matchAny (patToks pcs) (joinSlash kcs) = true := by
-  obtain ⟨m, b, hj, hd⟩ := anchored_here pcs kcs hp hk h
-  exact (matchAny_iff _ _).mpr ⟨[], m, b, by simpa using hj, hd⟩
+theorem denote_word_eq : ∀ (w m : List Char), Denote (w.map Tok.lit) m → m = w := by
+  intro w
+  induction w with
+  | nil => intro m h; cases h; rfl
+  | cons c w ih => intro m h; cases h with | lit h' => rw [ih _ h']
+
+/-- a slash-free text that is a prefix of `k/…` is a prefix of `k` -/
+theorem noslash_prefix : ∀ (m k b r : List Char), (∀ x ∈ m, x ≠ '/') → m ++ b = k ++ '/' :: r →
+    ∃ z, k = m ++ z := by
+  intro m
+  induction m with
+  | nil => intro k b r _ _; exact ⟨k, rfl⟩
+  | cons x m ih =>
+    intro k b r hm h
+    cases k with
+    | nil =>
+      simp only [List.cons_append, List.nil_append, List.cons.injEq] at h
+      exact absurd h.1 (hm x (by simp))
+    | cons y k =>
+      simp only [List.cons_append, List.cons.injEq] at h
+      obtain ⟨z, hz⟩ := ih k b r (fun c hc => hm c (List.mem_cons_of_mem _ hc)) h.2
+      exact ⟨z, by rw [h.1, hz]; rfl⟩
+
+/-- the first `/` of a path is where its first component ends -/
+theorem slash_split_unique : ∀ (k m1 r1 r2 : List Char), (∀ x ∈ k, x ≠ '/') → (∀ x ∈ m1, x ≠ '/') →
+    k ++ '/' :: r1 = m1 ++ '/' :: r2 → k = m1 ∧ r1 = r2 := by
+  intro k
+  induction k with
+  | nil =>
+    intro m1 r1 r2 _ hm h
+    cases m1 with
+    | nil => simpa using h
+    | cons x m1 =>
+      simp only [List.nil_append, List.cons_append, List.cons.injEq] at h
+      exact absurd h.1.symm (hm x (by simp))
+  | cons y k ih =>
+    intro m1 r1 r2 hk hm h
+    cases m1 with
+    | nil =>
+      simp only [List.nil_append, List.cons_append, List.cons.injEq] at h
+      exact absurd h.1 (hk y (by simp))
+    | cons x m1 =>
+      simp only [List.cons_append, List.cons.injEq] at h
+      obtain ⟨h1, h2⟩ := ih m1 r1 r2 (fun c hc => hk c (List.mem_cons_of_mem _ hc))
+        (fun c hc => hm c (List.mem_cons_of_mem _ hc)) h.2
+      exact ⟨by rw [h.1, h1], h2⟩
+
+/-- a prefix of the key path in the language of the pattern lays the pattern's components over the
+    key's components from the first one -/
+theorem here_anchored : ∀ (pcs : List Comp) (kcs : List (List Char)) (m b : List Char), pcs ≠ [] → kcs ≠ [] →
+    (∀ c ∈ pcs, ∀ w, c = Comp.word w → ∀ x ∈ w, x ≠ '/') → (∀ k ∈ kcs, ∀ x ∈ k, x ≠ '/') →
+    joinSlash kcs = m ++ b → Denote (patToks pcs) m → compRest pcs kcs = true
+  | [], _, _, _, h, _, _, _, _, _ => absurd rfl h
+  | _ :: _, [], _, _, _, h, _, _, _, _ => absurd rfl h
+  | [c], k :: ks, m, b, _, _, hp, hk, hj, hd => by
+    have hdc : Denote c.toks m := by simpa [patToks] using hd
+    have hm := match_comp_noslash c (hp c (by simp)) m hdc
+    have hz : ∃ z, k = m ++ z := by
+      cases ks with
+      | nil => exact ⟨b, by simpa [joinSlash] using hj⟩
+      | cons k2 ks' =>
+        simp only [joinSlash] at hj
+        exact noslash_prefix m k b _ hm hj.symm
+    obtain ⟨z, rfl⟩ := hz
+    simp only [compRest]
+    cases c with
+    | star =>
+      have := (match_star m).mp hdc
+      cases m with
+      | nil => exact absurd rfl this.1
+      | cons x m => simp [Comp.prefixOK]
+    | word w =>
+      have := denote_word_eq w m hdc
+      subst this
+      simp [Comp.prefixOK]
+  | c :: c2 :: cs, k :: ks, m, b, _, _, hp, hk, hj, hd => by
+    obtain ⟨m1, m2, rfl, hd1, hd2⟩ := (match_comp_split c (c2 :: cs) (by simp) m).mp hd
+    have hm1 := match_comp_noslash c (hp c (by simp)) m1 hd1
+    cases ks with
+    | nil =>
+      simp only [joinSlash] at hj
+      have hin : '/' ∈ k := by rw [hj]; simp
+      exact absurd rfl (hk k (by simp) '/' hin)
+    | cons k2 ks' =>
+      simp only [joinSlash] at hj
+      have hj' : k ++ '/' :: joinSlash (k2 :: ks') = m1 ++ '/' :: (m2 ++ b) := by
+        rw [hj]; simp
+      obtain ⟨hkm, hrest⟩ := slash_split_unique k m1 _ _ (hk k (by simp)) hm1 hj'
+      subst hkm
+      have ih := here_anchored (c2 :: cs) (k2 :: ks') m2 b (by simp) (by simp)
+        (fun c' hc' => hp c' (List.mem_cons_of_mem _ hc'))
+        (fun k' hk' => hk k' (List.mem_cons_of_mem _ hk')) hrest hd2
+      have hfull : c.full k = true := by
+        cases c with
+        | star =>
+          have := (match_star k).mp hd1
+          cases k with
+          | nil => exact absurd rfl this.1
+          | cons x k => simp [Comp.full]
+        | word w =>
+          have := denote_word_eq w k hd1
+          subst this
+          simp [Comp.full]
+      simp only [compRest, hfull, ih, Bool.and_self]
+
+/-- **C32_anchored** (full since the repair): for a pattern of `{*, literal}` components and a key path
+    of slash-free components, the anchored match of the repaired `Match` IS the documented reading:
+    the pattern's components laid over the key's components from the START of the path, each in full,
+    the last one as a prefix.  (Before the repair only `←` held: `before_repair_unanchored`.) -/
+theorem C32_anchored (pcs : List Comp) (kcs : List (List Char)) (hp : pcs ≠ []) (hk0 : kcs ≠ [])
+    (hw : ∀ c ∈ pcs, ∀ w, c = Comp.word w → ∀ x ∈ w, x ≠ '/')
+    (hk : ∀ k ∈ kcs, ∀ x ∈ k, x ≠ '/') :
+    matchHere (patToks pcs) (joinSlash kcs) = true ↔ compAnchored pcs kcs = true := by
+  rw [matchHere_iff]
+  constructor
+  · rintro ⟨m, b, hj, hd⟩
+    exact here_anchored pcs kcs m b hp hk0 hw hk hj hd
+  · intro h
+    exact anchored_here pcs kcs hp hk h
+
+/-- a trigger whose `{*, literal}` pattern does not name the bucket from the start of the path is not
+    called: e.g. `A/1Min/OHLCV` is no longer called for `AA/1Min/OHLCV` -/
+theorem C32_only_named :
+    matchHere (patToks [.word ['A'], .word ['1','M','i','n'], .word ['O','H','L','C','V']])
+      (joinSlash [['A','A'], ['1','M','i','n'], ['O','H','L','C','V'], ['2','0','2','0','.','b','i','n']]) = false := by
+  decide
 
 /-! ## non-vacuity -/
 
